@@ -7,6 +7,7 @@ import PsVerif.Lemmas.LeastSquares
 import PsVerif.Lemmas.GramAlg
 import PsVerif.Model.Recon
 import Mathlib.LinearAlgebra.Matrix.NonsingularInverse
+import PsVerif.Lemmas.RankLink
 namespace PsVerif
 open Matrix
 
@@ -89,5 +90,18 @@ theorem independent_rows_injective (B : Matrix (Fin n) (Fin m) ℚ) (σ : Fin m 
     Function.Injective (B.submatrix σ id).mulVec := by
   rw [Matrix.mulVec_injective_iff_isUnit, ← Matrix.linearIndependent_rows_iff_isUnit]
   exact hli
+
+/-- **C02 (default QR optimizer needs no further assumption), rank link.** If the sensor rows of `B` span
+a space of dimension at least `r` (rank ≥ r; `r = n_basis_modes` for a basis matrix of full column rank),
+each of the first `r` picks of the default exact run has non-zero residual when it is ranked – so by
+`leading_rows_independent` the picked rows are independent and by `independent_rows_injective` /
+`more_sensors_injective` every selection of at least `n_basis_modes` sensors determines the coefficients. -/
+theorem qr_picks_nonzero_of_rank (B : RMat) (m : Nat) (hB : B.WF B.size m) (r : Nat)
+    (hr : r ≤ Module.finrank ℚ (Submodule.span ℚ (Set.range fun a : Fin B.size => B.vec m a)))
+    (j : Nat) (hj : j < r) (hjn : j < B.size) (q : Nat)
+    (hq : (greedyRun (fun _ => 0) noMask B (j + 1)).p[j]? = some q) :
+    let picks := (greedyRun (fun _ => 0) noMask B j).p.toList.take j
+    mgsResid (B.vec m) picks q ⬝ᵥ mgsResid (B.vec m) picks q ≠ 0 :=
+  full_rank_picks_nonzero B m hB r hr j hj hjn q hq
 
 end PsVerif
